@@ -118,7 +118,7 @@ chk("C04",
     "ciphertexts whatever the keys and messages (one identifier under every keyword, the same database twice); in the counter-chain schemes "
     "every stored value is such a ciphertext with its own draw (the tape is exactly the list of value prefixes), distinct draws give distinct "
     "entries, and every stored key is a PRF output of a PRF-derived per-keyword key: keywords and identifiers enter the index only as arguments "
-    "of keyed primitives; for PiBas and PiPack whole runs EVERY dictionary value is such a stamped ciphertext and two set-ups with non-overlapping draws share none (Chain.index_is_ciphertexts, Chain.reencryption_shares_nothing); for PiPtr and Pi2Lev EVERY stored byte string (occupied array cells of all levels, dictionary values) is a ciphertext stamped with a draw of the run, for every key, database and tape (index_is_ciphertexts), so two set-ups with non-overlapping randomness share no stored byte string (reencryption_shares_nothing); for CT14 and ANSS16 every value of every level table and of the size table is a ciphertext concatenation stamped with a draw of the run or itself a random draw (values_from_randomness); for DP17 every bucket of every level array is a whole number of cells of param_identifier_cipher_len bytes and every cell is a random draw of the run or Enc(F_k3(w), iv, id||0^lambda) of a posting of the database under an IV drawn in the run (DP17.cells_from_randomness); for SSE1 every cell of the array is a node ciphertext stamped with a draw of the run or a random filler of the run (SSE1.array_from_randomness) and every entry of its look-up table is (PRP of a stored keyword, (address||key) masked by a PRF output of that keyword) or a pair of random draws (SSE1.table_from_primitives). Tie: the scheme correspondence reproduces every cell of the real index of all nine schemes from the recorded "
+    "of keyed primitives; for PiBas and PiPack whole runs EVERY dictionary value is such a stamped ciphertext and two set-ups with non-overlapping draws share none (Chain.index_is_ciphertexts, Chain.reencryption_shares_nothing); for PiPtr and Pi2Lev EVERY stored byte string (occupied array cells of all levels, dictionary values) is a ciphertext stamped with a draw of the run, for every key, database and tape (index_is_ciphertexts), so two set-ups with non-overlapping randomness share no stored byte string (reencryption_shares_nothing); for CT14 and ANSS16 every value of every level table and of the size table is a ciphertext concatenation stamped with a draw of the run or itself a random draw (values_from_randomness); for DP17 every bucket of every level array is a whole number of cells of param_identifier_cipher_len bytes and every cell is a random draw of the run or Enc(F_k3(w), iv, id||0^lambda) of a posting of the database under an IV drawn in the run (DP17.cells_from_randomness); for SSE1 every cell of the array is a node ciphertext stamped with a draw of the run or a random filler of the run (SSE1.array_from_randomness) and every entry of its look-up table is (PRP of a stored keyword, (address||key) masked by a PRF output of that keyword) or a pair of random draws (SSE1.table_from_primitives); for SSE2 every index entry maps a PRP value of (stored keyword or the all-zero filler word, counter) to an identifier of the database (SSE2.entries_are_prp_addressed) - a whole-index statement for every one of the nine schemes. Tie: the scheme correspondence reproduces every cell of the real index of all nine schemes from the recorded "
     "leaves and draws (a cell holding a raw identifier, a keyless label or a reused IV is a disagreement). Direct oracle on the real code: "
     "substring scan of the serialized index and tokens for >=6-byte keywords and 8-byte identifiers, pairwise distinct ciphertext entries with one "
     "identifier under every keyword, disjoint entries of two setups of the same (key, database); the index serialized AFTER every keyword has been searched twice is scanned as well.",
